@@ -11,7 +11,10 @@ From Coq Require Import Init.Byte.
 
 Definition B (l : list Byte.byte) : bytes := map Byte.to_N l.
 Definition o (h l : Byte.byte) : nat := N.to_nat (Byte.to_N h * 256 + Byte.to_N l).
+Definition q (b : Byte.byte) : nat := N.to_nat (Byte.to_N b).
 Definition zo (h l : Byte.byte) : Z := Z.of_nat (o h l).
+Definition zq (b : Byte.byte) : Z := Z.of_nat (q b).
+Definition l (a b c : Byte.byte) : line := Line (q a) (q b) (q c).
 Definition L (a1 a2 b1 b2 c1 c2 : Byte.byte) : line := Line (o a1 a2) (o b1 b2) (o c1 c2).
 Definition P (l : list Byte.byte) : list nat := map (fun b => N.to_nat (Byte.to_N b)) l.
 
@@ -105,23 +108,28 @@ Definition chk_parse (x : parse_case) : bool :=
 Definition chk_lines (x : bytes * list line) : bool :=
   lines_eqb (find_lines (fst x)) (snd x).
 
-(* fetch level: (data, decisions, RFC822.SIZE, body structure, data items) *)
+(* fetch level: (data, decisions, RFC822.SIZE, body structure, data items);
+   [printed] = the structure was read from a BODYSTRUCTURE response (else from
+   the BodyStructure objects) *)
 Definition fetch_case : Type :=
   bytes * list (nat * ctype) * nat * option bstruct * list query.
 
-Definition chk_fetch (x : fetch_case) : bool :=
+Definition chk_fetch_gen (printed : bool) (x : fetch_case) : bool :=
   let '(d, t, size, bs, qs) := x in
   match parse d (ct_of_table t) with
   | Ok c =>
     Nat.eqb (size_of d c) size
     && match bs, body_structure d c with
        | None, _ => true           (* structure not observed for this case *)
-       | Some b, Some b' => bstruct_eqb b' b
+       | Some b, Some b' => bstruct_eqb (if printed then bs_printed b' else b') b
        | Some _, None => false
        end
     && forallb (chk_query d c) qs
   | _ => false
   end.
+
+Definition chk_fetch : fetch_case -> bool := chk_fetch_gen false.
+Definition chk_fetch_imap : fetch_case -> bool := chk_fetch_gen true.
 
 (* _find_parts on its own: (data, boundary, lines given, parts observed) *)
 Definition parts_case : Type := bytes * bytes * list line * list (list line).
